@@ -186,6 +186,7 @@ def build_program(combos):
         fn = f"combo_{i}"
         names.append((label, fn))
         lines.append(f"def {fn}():")
+        lines.append(f"    _fin = Fin({label!r})  # release time of this call's locals is observed by main()")
         if pl == "self":
             lines.append(f"    x = {SELF_KINDS[kind].format(l=label)}")
             if kind in ("TL", "TD"):
@@ -213,7 +214,7 @@ def main():
             o = ["ok", type(r).__name__]
         except Exception as e:
             o = ["exc", type(e).__name__]
-        R.append([name] + o + [tw.COUNTER["n"] - n0])
+        R.append([name] + o + [tw.COUNTER["n"] - n0, ("fin:" + name) in tw.EVENTS])
     print("done", len(R), tw.COUNTER["n"])
     return R
 ''')
@@ -263,6 +264,8 @@ def judge(res, un, tr, spec, wit):
         res.count("result_judgements")
         if a[:2] != b[:2]:
             bad.append(("results-differ", f"{name}: untraced {a[:2]} traced {b[:2]}"))
+        elif a[3:4] != b[3:4]:
+            bad.append(("locals-outlive-the-call", f"{name}: the call's locals were released right after it returned: untraced {a[3:4]}, traced {b[3:4]}"))
         elif a[2] != b[2] and not any(name == lab or lab.startswith(name) for lab in surplus_labels):
             bad.append(("visible-state-differs", f"{name}: hook counter untraced {a[2]} traced {b[2]}"))
     if un["stdout"] != tr["stdout"]:
